@@ -210,8 +210,23 @@ def r4(ctx):
         ctx.inst(R, "send:emsgsize", ems and nopush, b.term(e[1]).get("s", b.span), "oversized datagram is rejected with EMSGSIZE" if ems and nopush else "oversized datagram is not rejected with EMSGSIZE")
     mp = ctx.body(R, "turmoil_net::kernel::udp::max_payload")
     if mp:
-        subs = list(mp.calls(re.compile(r"saturating_sub$")))
-        ctx.inst(R, "max_payload:headers", len(subs) == 2, mp.span, "IP and UDP header sizes are subtracted from the MTU" if len(subs) == 2 else f"{len(subs)} header subtraction(s) instead of 2")
+        consts = {}
+        for bb, i, s in mp.all_stmts():
+            for o in [s["r"].get("o"), s["r"].get("a"), s["r"].get("b")]:
+                c = op_const(o) if isinstance(o, dict) else None
+                if c and c.get("def"):
+                    consts[c["def"].rsplit("::", 1)[1]] = c.get("v")
+        for bb, t in mp.calls():
+            for a in t["args"]:
+                c = op_const(a)
+                if c and c.get("def"):
+                    consts[c["def"].rsplit("::", 1)[1]] = c.get("v")
+        forms = affine_forms(mp, {"c": {"l": 0}})
+        want = {(1, -(consts.get(ip, 0) + consts.get("UDP_HEADER_SIZE", 0))) for ip in ("IPV4_HEADER_SIZE", "IPV6_HEADER_SIZE")} \
+            if {"IPV4_HEADER_SIZE", "IPV6_HEADER_SIZE", "UDP_HEADER_SIZE"} <= set(consts) else None
+        okh = want is not None and forms == want
+        ctx.inst(R, "max_payload:headers", okh, mp.span, f"payload room = MTU - (IP header + UDP header): {sorted(forms)}" if okh else
+                 f"max_payload is not MTU minus the IP header and the UDP header in each address family (offsets found {sorted(forms)}, constants {consts})")
     ctx.floor(R, 2)
 
 
